@@ -11,7 +11,8 @@ EXPLANATION = ('Decides the Boolean simplifying constructors only: Logic::mkNot,
                'shapes {true, false, x, (not x), y, (not y), z, (not z)} (all pairs / triples; argument lists up to length 3 for and/or, under three creation orders of the atoms) is '
                'pushed through the constructor\'s decision structure by an abstract evaluator over the mini-AST (nothing is compiled or run), and the shape returned is compared with '
                'the operator\'s definition by a truth table. Nested constructor calls use the definition of the callee (each is checked on its own). Arithmetic constructors, '
-               'equality over non-Boolean sorts, distinct, select/store and longer argument lists are value-level and not decided.')
+               'equality over non-Boolean sorts, select/store and longer argument lists are value-level and not decided. Logic::mkDistinct is checked the same way on arguments of a '
+               'value sort: two constants (different values) and two variables, lists of length 0-4, against "pairwise different".')
 
 
 def run(src, tier, seed):
@@ -57,4 +58,18 @@ def run(src, tier, seed):
         r['instances'] += n - (1 if bad else 0)
         if not bad:
             r['sites'].append('Logic::%s: %d argument patterns' % (name, n))
+    # ---- distinct over a value sort
+    f = fx.func('opensmt::Logic::mkDistinct')
+    ev = dict(ctor_eval)
+    ev['mkDistinct'] = lambda a: ('distinct',) + tuple(a)
+    try:
+        n, bad = boolctor.check_distinct(fx, f, ev)
+    except Unmodelled as e:
+        raise AnalysisBroken('Logic::mkDistinct is outside the modelled subset: %s' % e)
+    for combo, out, why in bad[:1]:
+        res.bad(r, 'not-equivalent:mkDistinct', fx.loc(f), 'Logic::mkDistinct(%s) returns %s, which is not equivalent to "the arguments are pairwise different" (%s)%s'
+                % (', '.join(show(s) for s in combo), show(out), ('falsified by %s' % why) if isinstance(why, dict) else why, '; %d more pattern(s)' % (len(bad) - 1) if len(bad) > 1 else ''))
+    r['instances'] += n - (1 if bad else 0)
+    if not bad:
+        r['sites'].append('Logic::mkDistinct: %d argument patterns over constants c0, c1 and variables u, v of a value sort' % n)
     return res
